@@ -114,7 +114,14 @@ MODES = {"cache": ("1", "0"), "foldfilter": ("1", "1"), "b64filter": ("1", "1")}
 def accept(tool, trace):
     ef, pf = MODES[tool]
     ev = events(tool, trace)
-    r = pvlib.run_lines(pvlib.PVDRIVER, [f"wrapper.accept {ef} {pf} " + " ".join(ev)], timeout=300)[0]
+    # the acceptor is OUR program: if it does not answer in time (long traces on a busy machine) that says nothing about the tool.
+    # One more attempt with a generous limit; after that the trace counts as not validated ("skipped"), never as rejected.
+    op = f"wrapper.accept {ef} {pf} " + " ".join(ev)
+    r = pvlib.run_lines(pvlib.PVDRIVER, [op], timeout=900, stall=600)[0]
+    if r == "HANG" or r.startswith("CRASH"):
+        r = pvlib.run_lines(pvlib.PVDRIVER, [op], timeout=3000, stall=2400)[0]
+        if r == "HANG" or r.startswith("CRASH"):
+            r = "skipped: the trace acceptor did not finish (" + str(len(ev)) + " events)"
     return r, ev
 
 
